@@ -385,6 +385,22 @@ class _Fn:
         return f"<def {getattr(self.node, 'name', '?')}>"
 
 
+class _SelfAttr:
+    """the value of `self.<attr>` where attr is a method of the analysed class: calling it is the call `self.<attr>(...)`
+    (so a scenario's hook answers a call made through a local alias - `spec = self._specificity` - like the direct one);
+    ``fn``: the function itself when no subclass overrides it (usable as a key / map function), else None."""
+
+    def __init__(self, attr: str, fn: t.Any = None):
+        self.attr, self.fn = attr, fn
+
+    def __repr__(self) -> str:
+        return f"<self.{self.attr}>"
+
+
+def _is_self(e: ast.AST) -> bool:
+    return isinstance(e, ast.Name) and e.id == "self"
+
+
 def _simple_params(a: ast.arguments) -> list[str] | None:
     if a.vararg or a.kwarg or a.kwonlyargs or a.defaults or a.kw_defaults:
         return None
@@ -404,6 +420,9 @@ class Raised(BaseException):
     def __init__(self, exc: str):
         super().__init__(exc)
         self.exc = exc
+
+
+_PROPAGATES = object()  # FuncEval._exc_target: no construct of the function catches the exception
 
 
 class Obj:
@@ -496,12 +515,22 @@ class Ev:
             except Exception:
                 return UNK
         if isinstance(e, ast.BoolOp):
-            vs = [self.val(x, env) for x in e.values]
-            if _known(*vs):
-                r = vs[0]
-                for v in vs[1:]:
-                    r = (r and v) if isinstance(e.op, ast.And) else (r or v)
-                return r
+            # operands in order; a known operand that decides the result ends the evaluation (the later operands are not
+            # executed: a scenario's hook must not see their calls)
+            last: t.Any = UNK
+            for x in e.values:
+                last = self.val(x, env)
+                if last is UNK:
+                    break
+                try:
+                    tv = bool(last)
+                except Exception:
+                    last = UNK
+                    break
+                if tv != isinstance(e.op, ast.And):
+                    return last
+            if last is not UNK:
+                return last
             return self.truth(e, env)
         if isinstance(e, ast.Compare):
             return self._compare(e, env)
@@ -528,9 +557,20 @@ class Ev:
             return self.val(e.body if tr else e.orelse, env)
         if isinstance(e, ast.Lambda):
             return _Lam(e)
-        if isinstance(e, ast.Attribute) and (isinstance(e.value, ast.Call) or (isinstance(e.value, ast.Name) and e.value.id in env)):
+        if isinstance(e, ast.Attribute) and isinstance(e.value, (ast.Call, ast.Name, ast.Subscript)):
             v = self.val(e.value, env)
-            return v.attrs[e.attr] if isinstance(v, Obj) and e.attr in v.attrs else UNK
+            if isinstance(v, Obj) and e.attr in v.attrs:
+                return v.attrs[e.attr]
+            if isinstance(v, tuple) and e.attr in getattr(type(v), "_fields", ()):
+                return getattr(v, e.attr)  # field of a NamedTuple record built from the source's class statement
+            if self.func_ref is not None and isinstance(e.value, (ast.Name, ast.Call)):
+                r = self.func_ref(e, self, env)  # `self.method` / `type(self).helper` read as a value (bound to a local name)
+                if isinstance(r, (_Fn, _SelfAttr)):
+                    return r
+            return UNK
+        if isinstance(e, ast.Attribute) and self.func_ref is not None and isinstance(e.value, ast.Attribute) and e.value.attr == "__class__":
+            r = self.func_ref(e, self, env)  # `self.__class__.helper`
+            return r if isinstance(r, _Fn) else UNK
         if isinstance(e, ast.NamedExpr):
             r = self.named(e) if self.named is not None else NotImplemented
             if r is NotImplemented:
@@ -613,9 +653,13 @@ class Ev:
 
     def _callable(self, e: ast.AST, env: dict[str, t.Any]) -> t.Any:
         """the callable value an expression denotes, or None."""
-        v = self.val(e, env) if isinstance(e, (ast.Name, ast.Lambda)) else UNK
-        if not isinstance(v, (_Lam, _Fn)) and self.func_ref is not None and not (isinstance(e, ast.Name) and e.id in env):
+        if isinstance(e, ast.Attribute) and isinstance(e.value, ast.Name) and e.value.id == "str" and "str" not in env and e.attr in _STR_METHODS and self.lookup(e.value) is UNK:
+            return _Lam(ast.parse(f"lambda _x: _x.{e.attr}()", mode="eval").body)  # type: ignore[arg-type]  # `str.lower` as a function of one string
+        v = self.val(e, env) if isinstance(e, (ast.Name, ast.Lambda, ast.Call)) else UNK
+        if not isinstance(v, (_Lam, _Fn, _SelfAttr)) and self.func_ref is not None and not (isinstance(e, ast.Name) and e.id in env):
             v = self.func_ref(e, self, env)
+        if isinstance(v, _SelfAttr):
+            v = v.fn
         return v if isinstance(v, (_Lam, _Fn)) else None
 
     def _call(self, e: ast.Call, env: dict[str, t.Any]) -> t.Any:
@@ -751,14 +795,15 @@ class Ev:
         if env is None:
             env = {}
         if isinstance(e, ast.BoolOp):
-            ts = [self.truth(x, env) for x in e.values]
-            if isinstance(e.op, ast.And):
-                if any(x is False for x in ts):
-                    return False
-                return True if all(x is True for x in ts) else UNK
-            if any(x is True for x in ts):
-                return True
-            return False if all(x is False for x in ts) else UNK
+            decides = not isinstance(e.op, ast.And)  # the truth value that ends the evaluation
+            res: t.Any = not decides
+            for x in e.values:
+                tr = self.truth(x, env)
+                if tr is decides:
+                    return decides
+                if tr is UNK:
+                    res = UNK
+            return res
         if isinstance(e, ast.UnaryOp) and isinstance(e.op, ast.Not):
             tr = self.truth(e.operand, env)
             return UNK if tr is UNK else (not tr)
@@ -808,7 +853,13 @@ def _bind(target: ast.AST, value: t.Any, env: dict[str, t.Any]) -> bool:
             vals = list(value)
         except TypeError:
             return False
-        if len(vals) != len(target.elts):
+        stars = [k for k, x in enumerate(target.elts) if isinstance(x, ast.Starred)]
+        if len(stars) == 1 and len(vals) >= len(target.elts) - 1:
+            k, tail = stars[0], len(target.elts) - stars[0] - 1
+            mid = vals[k:len(vals) - tail]
+            return (all(_bind(e, v, env) for e, v in zip(target.elts[:k], vals[:k])) and _bind(target.elts[k].value, list(mid), env)  # type: ignore[attr-defined]
+                    and all(_bind(e, v, env) for e, v in zip(target.elts[k + 1:], vals[len(vals) - tail:])))
+        if stars or len(vals) != len(target.elts):
             return False
         return all(_bind(e, v, env) for e, v in zip(target.elts, vals))
     return False
@@ -902,7 +953,7 @@ class FuncEval:
             return UNK
         if fn.fi is not None:
             bound = dict(zip(names, args))
-            if fn.bound and ("self" in env or "self" in self.params):
+            if fn.bound and not getattr(fn, "of_class", False) and ("self" in env or "self" in self.params):
                 bound[fn.fi.params[0]] = env["self"] if "self" in env else self.params["self"]
             sub = FuncEval(self.repo, self.folder, fn.fi, params=bound, call_hook=self.user_hook if fn.bound or self.raising else None, inline_depth=self.inline_depth + 1)
         else:
@@ -913,9 +964,15 @@ class FuncEval:
             res = sub.concrete()
             if res is not None:
                 return res[1] if res[0] == "return" else UNK
+            if self.raising:
+                return UNK  # which call raises is only meaningful in statement order: no path summary instead
             rets, raises = sub.outcomes()
         except AnalysisError:
             return UNK
+        except Raised:
+            if self.raising:
+                raise
+            return UNK  # the helper's run ends in an exception of its own making (not one the scenario injects)
         vals = [v for _, v in rets]
         if raises or not vals or not _known(*vals) or any(not (v is vals[0] or (type(v) is type(vals[0]) and v == vals[0])) for v in vals[1:]):
             return UNK
@@ -930,9 +987,53 @@ class FuncEval:
             return _Fn(h.node, h) if h is not None and h is not self.fi else UNK
         if isinstance(e, ast.Attribute) and isinstance(e.value, ast.Name) and e.value.id == "self" and self.fi.cls is not None and self.fi.params[:1] == ["self"] and self.fn is self.fi.node:
             h = sole_method(self.repo, self.fi.cls, e.attr)
-            if h is not None and h.params and not ({"staticmethod", "classmethod", "property"} & set(h.decorators)):
-                return _Fn(h.node, h, True)
+            fn: t.Any = None
+            if h is not None and "staticmethod" in h.decorators and not ({"classmethod", "property"} & set(h.decorators)):
+                fn = _Fn(h.node, h, False)  # a static method reached through self: a plain function of its arguments
+            elif h is not None and h.params and "classmethod" in h.decorators and "property" not in h.decorators:
+                fn = _Fn(h.node, h, True)
+                fn.of_class = True
+            elif h is not None and h.params and not ({"staticmethod", "classmethod", "property"} & set(h.decorators)):
+                fn = _Fn(h.node, h, True)
+            if fn is not None:
+                return _SelfAttr(e.attr, fn)
+            try:
+                _o, w = self.repo.lookup(self.fi.cls, e.attr)
+            except AnalysisError:
+                return UNK
+            if isinstance(w, FuncInfo) and "property" not in w.decorators:
+                return _SelfAttr(e.attr, None)  # a method some subclass overrides: only a scenario's hook can answer its calls
+            return UNK
+        h = self._static_of_class(e)
+        if h is not None:
+            return _Fn(h.node, h, False)
         return UNK
+
+    def _static_of_class(self, e: ast.AST) -> FuncInfo | None:
+        """`Cls.helper` / `type(self).helper` / `self.__class__.helper` where helper is a static method that is the same
+        function for the analysed class and all its subclasses (Cls: the analysed function's class or one of its bases)."""
+        if not (isinstance(e, ast.Attribute) and self.fi.cls is not None):
+            return None
+        v = e.value
+        own = False
+        if isinstance(v, ast.Name) and v.id not in ("self", "cls"):
+            own = any(getattr(c, "name", None) == v.id for c in self._mro())
+        elif isinstance(v, ast.Call) and isinstance(v.func, ast.Name) and v.func.id == "type" and len(v.args) == 1 and not v.keywords and _is_self(v.args[0]):
+            own = self.fi.params[:1] == ["self"]
+        elif isinstance(v, ast.Attribute) and v.attr == "__class__" and _is_self(v.value):
+            own = self.fi.params[:1] == ["self"]
+        if not own:
+            return None
+        h = sole_method(self.repo, self.fi.cls, e.attr)
+        if h is not None and "staticmethod" in h.decorators and not ({"classmethod", "property"} & set(h.decorators)):
+            return h
+        return None
+
+    def _mro(self) -> list[t.Any]:
+        try:
+            return list(self.repo.mro(self.fi.cls))
+        except AnalysisError:
+            return [self.fi.cls]
 
     def ev_at(self, node: Node) -> Ev:
         ev = Ev(lambda nm: self.lookup_at(node, nm), self._hook)
@@ -1113,8 +1214,22 @@ class FuncEval:
             return UNK
         tg = getattr(d.stmt, "targets", None)
         tgt = tg[0] if tg else getattr(d.stmt, "target", None)
-        if isinstance(tgt, (ast.Tuple, ast.List)) and (len(tgt.elts) != len(v) or any(isinstance(x, (ast.Starred, ast.Tuple, ast.List)) for x in tgt.elts)):
-            return UNK
+        if isinstance(tgt, (ast.Tuple, ast.List)):
+            if any(isinstance(x, (ast.Tuple, ast.List)) or (isinstance(x, ast.Starred) and not isinstance(x.value, ast.Name)) for x in tgt.elts) or d.index is None:
+                return UNK
+            stars = [k for k, x in enumerate(tgt.elts) if isinstance(x, ast.Starred)]
+            m, n = len(tgt.elts), len(v)
+            if len(stars) == 1 and n >= m - 1:
+                # `a, b, *rest = seq`: the names before the star take the leading items, those after it the trailing
+                # ones, the starred name a fresh list of what is in between
+                k = stars[0]
+                if d.index < k:
+                    return v[d.index]
+                if d.index == k:
+                    return list(v[k:n - (m - k - 1)])
+                return v[n - (m - d.index)]
+            if stars or m != n:
+                return UNK
         try:
             return v[d.index]  # type: ignore[index]
         except IndexError:
@@ -1122,6 +1237,14 @@ class FuncEval:
 
     # -- calls ------------------------------------------------------------------
     def _hook(self, call: ast.Call, ev: Ev, env: dict[str, t.Any]) -> t.Any:
+        if isinstance(call.func, ast.Name) and (call.func.id in env or (ev.node is not None and self.rd.reaching(ev.node, call.func.id))):
+            # a call through a local name that holds `self.<method>`: the call `self.<method>(...)` itself
+            v = env[call.func.id] if call.func.id in env else ev.lookup(call.func)
+            if isinstance(v, _SelfAttr) and self.fi.params[:1] == ["self"]:
+                direct = ast.copy_location(ast.Call(func=ast.copy_location(ast.Attribute(value=ast.copy_location(ast.Name(id="self", ctx=ast.Load()), call.func), attr=v.attr, ctx=ast.Load()), call.func),
+                                                    args=call.args, keywords=call.keywords), call)
+                r = self._hook(direct, ev, env)
+                return r if r is not NotImplemented else UNK
         if self.user_hook is not None:
             r = self.user_hook(call, ev, env, self)
             if r is not NotImplemented:
@@ -1130,6 +1253,9 @@ class FuncEval:
         # method of the analysed function's own class that no class of its hierarchy overrides, is evaluated in
         # place on the known argument values; its result is used when every feasible path returns the same value
         f = call.func
+        r = self._stdlib_value(call, ev, env)
+        if r is not NotImplemented:
+            return r
         if call.keywords or self.inline_depth >= 3 or any(isinstance(a, ast.Starred) for a in call.args):
             return NotImplemented
         helper: FuncInfo | None = None
@@ -1142,11 +1268,22 @@ class FuncEval:
         elif (isinstance(f, ast.Attribute) and isinstance(f.value, ast.Name) and f.value.id == "self" and self.fi.cls is not None and self.fn is self.fi.node
               and self.fi.params[:1] == ["self"] and ("self" not in env or (self._cenv is not None and env["self"] is self._cenv.get("self")))):
             helper = sole_method(self.repo, self.fi.cls, f.attr)
-            if helper is None or not helper.params or "staticmethod" in helper.decorators or "classmethod" in helper.decorators:
+            if helper is None or "property" in helper.decorators:
                 return NotImplemented
-            names = helper.params[1:]
-            if "self" in env or "self" in self.params:
-                bound[helper.params[0]] = env["self"] if "self" in env else self.params["self"]
+            if "staticmethod" in helper.decorators:
+                names = helper.params  # a static method reached through self: a plain function of its arguments
+            elif not helper.params:
+                return NotImplemented
+            elif "classmethod" in helper.decorators:
+                names = helper.params[1:]  # its first parameter is the class: no value of the scenario (stays unknown)
+            else:
+                names = helper.params[1:]
+                if "self" in env or "self" in self.params:
+                    bound[helper.params[0]] = env["self"] if "self" in env else self.params["self"]
+        elif self.fn is self.fi.node and self._static_of_class(f) is not None:
+            helper = self._static_of_class(f)
+            assert helper is not None
+            names = helper.params
         else:
             return NotImplemented
         if helper is None or helper is self.fi or len(call.args) != len(names):
@@ -1164,9 +1301,15 @@ class FuncEval:
             res = sub.concrete()
             if res is not None:
                 return res[1] if res[0] == "return" else UNK
+            if self.raising:
+                return UNK  # which call raises is only meaningful in statement order: no path summary instead
             rets, raises = sub.outcomes()
         except AnalysisError:
             return UNK
+        except Raised:
+            if self.raising:
+                raise
+            return UNK  # the helper's run ends in an exception of its own making (not one the scenario injects)
         vals = [v for _, v in rets]
         if raises or not vals or not _known(*vals):
             return UNK
@@ -1174,6 +1317,86 @@ class FuncEval:
         if any(not (v is v0 or (type(v) is type(v0) and v == v0)) for v in vals[1:]):
             return UNK
         return v0
+
+    def _stdlib_value(self, call: ast.Call, ev: Ev, env: dict[str, t.Any]) -> t.Any:
+        """values of a few constructors that only rearrange their arguments: `operator.itemgetter(<constants>)` /
+        `operator.attrgetter(<names>)` (as the lambda they stand for) and the call of a `typing.NamedTuple` class of the
+        analysed module (a tuple with named fields, built from the class statement's annotated fields)."""
+        f = call.func
+        d = dotted(f)
+        if d is None or any(isinstance(a, ast.Starred) for a in call.args) or any(k.arg is None for k in call.keywords):
+            return NotImplemented
+        head = d.split(".", 1)[0]
+        if head in env or (ev.node is not None and self.rd.reaching(ev.node, head)):
+            return NotImplemented  # a local binding shadows the module-level name
+        mod = self.fi.module
+        li = getattr(self.fi, "_c17_local_imports", None)
+        if li is None:
+            li = mod.local_imports(self.fi.node)
+            self.fi._c17_local_imports = li  # type: ignore[attr-defined]
+        if head not in mod.classes and head not in mod.imports and head not in li:
+            return NotImplemented
+        fq = self.repo.resolve(mod, d, li)
+        if fq in ("operator.itemgetter", "operator.attrgetter") and call.args and not call.keywords:
+            keys = [a.value for a in call.args if isinstance(a, ast.Constant)]
+            if len(keys) != len(call.args):
+                return UNK
+            if fq == "operator.itemgetter":
+                if not all(isinstance(k, (int, str)) and not isinstance(k, bool) for k in keys):
+                    return UNK
+                parts = [f"_x[{k!r}]" for k in keys]
+            else:
+                if not all(isinstance(k, str) and k.isidentifier() for k in keys):
+                    return UNK
+                parts = [f"_x.{k}" for k in keys]
+            src = parts[0] if len(parts) == 1 else "(" + ", ".join(parts) + ",)"
+            return _Lam(ast.parse(f"lambda _x: {src}", mode="eval").body)  # type: ignore[arg-type]
+        if isinstance(f, ast.Name) and f.id in mod.classes:
+            rec = self._record_class(mod.classes[f.id])
+            if rec is None:
+                return NotImplemented
+            args = [ev.val(a, env) for a in call.args]
+            kws = {k.arg: ev.val(k.value, env) for k in call.keywords}
+            if not _known(*args, *kws.values()):
+                return UNK
+            try:
+                return rec(*args, **kws)
+            except TypeError:
+                return UNK
+        return NotImplemented
+
+    def _record_class(self, c: t.Any) -> t.Any:
+        """the tuple type a `class X(typing.NamedTuple)` statement of the module defines (fields in order, constant
+        defaults); None for any other class or when the class body has more than annotated fields and a docstring."""
+        cached = getattr(c, "_c17_record", NotImplemented)
+        if cached is not NotImplemented:
+            return cached
+        import collections
+
+        rec = None
+        bases = [self.repo.resolve(c.module, dotted(b) or "?") for b in c.base_exprs]
+        if bases == ["typing.NamedTuple"]:
+            fields: list[str] = []
+            defaults: list[t.Any] = []
+            ok = True
+            for st in c.node.body:
+                if isinstance(st, ast.Expr) and isinstance(st.value, ast.Constant) and isinstance(st.value.value, str):
+                    continue
+                if isinstance(st, ast.AnnAssign) and isinstance(st.target, ast.Name) and (st.value is None or isinstance(st.value, ast.Constant)):
+                    if st.value is None and defaults:
+                        ok = False
+                    fields.append(st.target.id)
+                    if st.value is not None:
+                        defaults.append(st.value.value)
+                    continue
+                ok = False
+            if ok and fields:
+                try:
+                    rec = collections.namedtuple(c.name, fields, defaults=defaults or None)  # type: ignore[misc]
+                except ValueError:
+                    rec = None
+        c._c17_record = rec
+        return rec
 
     # -- reachability under the scenario -----------------------------------------
     def explore(self, starts: t.Iterable[Node], stop: t.Iterable[int] = (), avoid: t.Iterable[int] = (), definite: bool = False) -> set[int]:
@@ -1258,21 +1481,83 @@ class FuncEval:
                 # tries that covers the exception; with none, it leaves this function
                 if self._under_finally(n):
                     return None
-                step = None
-                for h, l in n.succs:
-                    if l != "exc" or h.kind != "handler" or not isinstance(h.ast, ast.ExceptHandler):
-                        continue
-                    cov = handler_covers(h.ast.type, sig.exc)
-                    if cov is None:
-                        return None
-                    if cov:
-                        step = h
-                        break
+                step = self._exc_target(n, sig.exc)
                 if step is None:
-                    raise
+                    return None
+                if step is _PROPAGATES:
+                    if self.raising or self.inline_depth > 0:
+                        raise
+                    return ("raise", None)
             if not isinstance(step, Node):
                 return step
             prev, n = n, step
+        return None
+
+    def _exc_target(self, n: Node, exc: str) -> t.Any:
+        """where control goes when the statement of node n raises the builtin exception ``exc``: the node of the first
+        handler, innermost construct first, that covers it; the statement after a ``with contextlib.suppress(...)`` block
+        that covers it (("return", None) when the function ends there); _PROPAGATES when nothing in this function
+        catches it; None when a construct on the way is not understood (a handler naming a class that is not a builtin
+        exception, any other context manager - it may swallow the exception -, a suppress block that is not followed by a
+        plain statement)."""
+        handlers = {id(h.ast): h for h, l in n.succs if l == "exc" and h.kind == "handler"}
+        child: ast.AST | None = n.ast
+        cur = getattr(child, "_parent", None) if child is not None else None
+        while child is not None and child is not self.fn and cur is not None:
+            if (isinstance(cur, ast.Try) or cur.__class__.__name__ == "TryStar") and any(child is x for x in cur.body):  # type: ignore[attr-defined]
+                for h in cur.handlers:  # type: ignore[attr-defined]
+                    cov = handler_covers(h.type, exc)
+                    if cov is None:
+                        return None
+                    if cov:
+                        return handlers.get(id(h))
+            elif isinstance(cur, ast.AsyncWith):
+                return None
+            elif isinstance(cur, ast.With) and any(child is x for x in cur.body):
+                sup = self._suppresses(cur, exc)
+                if sup is None:
+                    return None
+                if sup:
+                    return self._after(cur)
+            child, cur = cur, getattr(cur, "_parent", None)
+        return _PROPAGATES
+
+    def _suppresses(self, w: ast.With, exc: str) -> bool | None:
+        """does leaving the with block by exception ``exc`` continue after it?  Only `contextlib.suppress(<classes>)`
+        items are understood (True / False by the builtin hierarchy); None for any other context manager."""
+        res = False
+        for it in w.items:
+            c = it.context_expr
+            d = dotted(c.func) if isinstance(c, ast.Call) else None
+            fq = self.repo.resolve(self.fi.module, d, self.fi.module.local_imports(self.fi.node)) if d else None
+            if fq != "contextlib.suppress" or c.keywords or it.optional_vars is not None or any(isinstance(a, ast.Starred) for a in c.args):  # type: ignore[union-attr]
+                return None
+            for a in c.args:  # type: ignore[union-attr]
+                cov = handler_covers(a, exc)
+                if cov is None:
+                    return None
+                res = res or cov
+        return res
+
+    def _after(self, st: ast.stmt) -> t.Any:
+        """the node of the plain statement that follows compound statement ``st`` in its block; ("return", None) when
+        the function body ends with ``st``; None otherwise (the continuation is not looked for)."""
+        par = getattr(st, "_parent", None)
+        if par is None:
+            return None
+        for fld in ("body", "orelse", "finalbody"):
+            blk = getattr(par, fld, None)
+            if isinstance(blk, list) and any(st is x for x in blk):
+                i = [k for k, x in enumerate(blk) if x is st][0]
+                if i + 1 < len(blk):
+                    nx = blk[i + 1]
+                    if not isinstance(nx, (ast.Return, ast.Assign, ast.AnnAssign, ast.AugAssign, ast.Expr, ast.Raise, ast.Pass)):
+                        return None
+                    ns = self.cfg.by_ast.get(id(nx))
+                    return ns[0] if ns and ns[0].kind == "stmt" else None
+                if par is self.fn and fld == "body":
+                    return ("return", None)
+                return None
         return None
 
     def _under_finally(self, n: Node) -> bool:
@@ -1328,8 +1613,8 @@ class FuncEval:
                     # inside a try.  Whether the statement raises is modelled only when the scenario says which calls raise
                     # (``raising``: its hook raises :class:`Raised`, handled by the caller of this step) and the statement
                     # otherwise computes a known value from known values (sample constants: nothing else can raise)
-                    if not self.raising:
-                        return None
+                    # (without such a scenario: the statement is followed when it computes known values from known values -
+                    # a call that would raise evaluates to unknown, never to a value)
                     if isinstance(st, ast.Return) and st.value is not None:
                         v = ev.val(st.value, env)
                         return None if v is UNK else ("return", v)
@@ -1404,6 +1689,12 @@ class FuncEval:
                 if len(normal) != 1:
                     return None
                 nxt = normal[0][0]
+            elif n.kind == "with" and isinstance(n.ast, ast.With):
+                # entering a block under `contextlib.suppress(<builtin exception classes>)` computes nothing; what it does
+                # with an exception is decided where one is raised (_exc_target); other context managers are not followed
+                if self._suppresses(n.ast, "Exception") is None or len(normal) != 1:
+                    return None
+                nxt = normal[0][0]
             elif n.kind == "handler" and isinstance(n.ast, ast.ExceptHandler):
                 if n.ast.name:
                     env[n.ast.name] = UNK
@@ -1435,6 +1726,8 @@ class FuncEval:
                 cache[id(d.value)] = ev.val(d.value, env)
             v = cache[id(d.value)]
             if d.index is not None:
+                if ev.mutating and d.kind == "unpack" and isinstance(v, (type(None), bool, int, float)):
+                    raise Raised("TypeError")  # statement-by-statement run: unpacking what is not iterable (`a, b = None`)
                 v = self._index(v, d)
             new.append((d.name, v))
         for k, v in new:
